@@ -432,24 +432,11 @@ func (w *Watcher) Run(ctx context.Context) error {
 						expectedConfirmations = uint64(pLock.message.ConsistencyLevel)
 					}
 
-					// Transaction was dropped and never picked up again
-					if pLock.height+expectedConfirmations+w.maxWaitConfirmations <= blockNumberU {
-						logger.Info("observation timed out",
-							zap.Stringer("tx", pLock.message.TxHash),
-							zap.Stringer("blockhash", key.BlockHash),
-							zap.Stringer("emitter_address", key.EmitterAddress),
-							zap.Uint64("sequence", key.Sequence),
-							zap.Stringer("current_block", ev.Number),
-							zap.Bool("is_safe_block", ev.Safe),
-							zap.Stringer("current_blockhash", currentHash),
-							zap.String("eth_network", w.networkName),
-							zap.Uint64("expectedConfirmations", expectedConfirmations),
-							zap.Uint64("maxWaitConfirmations", w.maxWaitConfirmations),
-						)
-						ethMessagesOrphaned.WithLabelValues(w.networkName, "timeout").Inc()
-						delete(w.pending, key)
-						continue
-					}
+					// The observation is abandoned only after the node failed to confirm it for the
+					// whole window (see the transient error case below). This must not be decided
+					// before the receipt was looked up: the head can advance by more than
+					// maxWaitConfirmations between two polls (e.g. when finality catches up).
+					timedOut := pLock.height+expectedConfirmations+w.maxWaitConfirmations <= blockNumberU
 
 					// Transaction is now ready
 					if pLock.height+expectedConfirmations <= blockNumberU {
@@ -500,7 +487,26 @@ func (w *Watcher) Run(ctx context.Context) error {
 							continue
 						}
 
-						// Any error other than "not found" is likely transient - we retry next block.
+						// Any error other than "not found" is likely transient - we retry next block,
+						// unless the transaction was dropped and never picked up again.
+						if err != nil && timedOut {
+							logger.Info("observation timed out",
+								zap.Stringer("tx", pLock.message.TxHash),
+								zap.Stringer("blockhash", key.BlockHash),
+								zap.Stringer("emitter_address", key.EmitterAddress),
+								zap.Uint64("sequence", key.Sequence),
+								zap.Stringer("current_block", ev.Number),
+								zap.Bool("is_safe_block", ev.Safe),
+								zap.Stringer("current_blockhash", currentHash),
+								zap.String("eth_network", w.networkName),
+								zap.Uint64("expectedConfirmations", expectedConfirmations),
+								zap.Uint64("maxWaitConfirmations", w.maxWaitConfirmations),
+								zap.Error(err),
+							)
+							ethMessagesOrphaned.WithLabelValues(w.networkName, "timeout").Inc()
+							delete(w.pending, key)
+							continue
+						}
 						if err != nil {
 							logger.Warn("transaction could not be fetched",
 								zap.Stringer("tx", pLock.message.TxHash),
